@@ -396,7 +396,7 @@ func runSys(raw json.RawMessage) (out interface{}, err error) {
 			}
 			st.Lookup = last
 		case "lookup_unknown":
-			res, err := getSafely(run.m, cancelled, xdsresource.ResourceType(42), "x")
+			res, err := getSafely(run.m, cancelled, unknownKinds[(c.ID+i)%len(unknownKinds)], "x")
 			st.Lookup = res
 			if err != nil {
 				st.Note = err.Error()
